@@ -565,7 +565,7 @@ pub fn op_strategy(p: &Profile) -> BoxedStrategy<Op> {
         2 => (0u32..4000).prop_map(CfgChange::BatchPeriod),
         2 => (0u32..4000).prop_map(CfgChange::Unbonding),
         1 => Just(CfgChange::Identity),
-        3 => prop_oneof![3 => (0u8..6).prop_map(CfgChange::Staker), 3 => (0u8..6).prop_map(CfgChange::Collector), 3 => any::<bool>().prop_map(CfgChange::Channel), 2 => (1u8..4).prop_map(CfgChange::ChannelSpelling), 3 => (0u8..6).prop_map(CfgChange::ProtocolPrefix)],
+        3 => prop_oneof![3 => (0u8..6).prop_map(CfgChange::Staker), 3 => (0u8..6).prop_map(CfgChange::Collector), 3 => any::<bool>().prop_map(CfgChange::Channel), 2 => (1u8..4).prop_map(CfgChange::ChannelSpelling), 3 => (0u8..9).prop_map(CfgChange::ProtocolPrefix)],
     ];
     let ident = p.identity_changes;
     let extreme = p.extreme_periods;
